@@ -55,7 +55,7 @@ def states(tier):
             for ss in (0, 1):
                 S.append(dict(base, cwd=c, stdin=si, setsid=ss, ptyowner=1))
     # (b3) env x sudo/logname x ids
-    for e in ('empty', 'three', 'special', 'big', 'huge'):
+    for e in ('empty', 'three', 'special', 'big', 'huge', 'malformed'):
         for su, ln in ((0, 0), (1, 0), (0, 1), (1, 1)):
             for u in ((0, 0, 0), (1, 54321, 0)):
                 S.append(dict(base, env=e, sudo=su, logname=ln, ids=u + (0, 0, 0)))
